@@ -1091,6 +1091,9 @@ class Variable(CanBehaveLikeAVariable[T]):
         self, sources: Dict[int, HashedValue]
     ) -> Iterable[OperationResult]:
         parameters = _parameters_of_(self._type_)
+        # decided now: this generator may be resumed after the variable has been evaluated in another position (as a
+        # selected variable, as an argument of another call, as an operand)
+        used_as_condition = self._is_used_as_condition_
         for kwargs in self._generate_combinations_for_child_vars_values_(sources):
             # Build once: unwrapped hashed kwargs for already provided child vars
             bound_kwargs = {k: v[self._child_vars_[k]._id_] for k, v in kwargs.items()}
@@ -1101,7 +1104,9 @@ class Variable(CanBehaveLikeAVariable[T]):
             )
             if self._predicate_type_ == PredicateType.SubClassOfPredicate:
                 instance = instance()
-            yield self._process_output_and_update_values_(instance, kwargs)
+            yield self._process_output_and_update_values_(
+                instance, kwargs, used_as_condition
+            )
 
     def _generate_combinations_for_child_vars_values_(
         self, sources: Optional[Dict[int, HashedValue]] = None
@@ -1128,13 +1133,17 @@ class Variable(CanBehaveLikeAVariable[T]):
         yield from combinations_from(0, sources or {}, {})
 
     def _process_output_and_update_values_(
-        self, instance: Any, kwargs: Dict[str, OperationResult]
+        self,
+        instance: Any,
+        kwargs: Dict[str, OperationResult],
+        used_as_condition: bool,
     ) -> OperationResult:
         """
         Process the predicate/variable instance and get the results.
 
         :param instance: The created instance.
         :param kwargs: The keyword arguments of the predicate/variable.
+        :param used_as_condition: Whether the variable stands where a condition stands in this evaluation.
         :return: The results' dictionary.
         """
         hv = HashedValue(instance)
@@ -1145,7 +1154,7 @@ class Variable(CanBehaveLikeAVariable[T]):
             values.update(d.bindings)
         # operators that select between their operands (else-if, alternative, ...) read the current truth value of
         # an operand from the operand itself
-        self._is_false_ = self._truth_value_is_false_(instance)
+        self._is_false_ = used_as_condition and not bool(instance)
         return OperationResult(values, self._is_false_, self)
 
     def _truth_value_is_false_(self, value: Any) -> bool:
